@@ -980,6 +980,9 @@ def bestof_loop(ctx, path, n, rule, need):
     rep, pdb = ctx.rep, ctx.pdb
 
     def ob(name, inst, ok, detail="", where_=""):
+        if name == "loop-shape" and not ok:
+            # the best-of analysis needs one candidate loop (or one reduction); anything else is not certified
+            return rep.ob(rule + "." + name, inst, ok, "UNCERTIFIED: " + detail + " — the best-of rule cannot be applied to this shape", where_)
         if name in need or name == "loop-shape":
             return rep.ob(rule + "." + name, inst, ok, detail, where_)
         return ok
